@@ -34,6 +34,10 @@ pub enum Finish {
     Upgrade(Vec<u8>, RespSpec, Vec<WOp>),
 }
 
+/// `Action::delay_ms` values from here on mean: wait `delay_ms - PRE_DELAY` ms *before* the first
+/// `as_reader()` (smaller values: wait before finishing)
+pub const PRE_DELAY: u64 = 1_000_000;
+
 #[derive(Clone, Debug)]
 pub struct Action {
     pub as_reader: usize,
@@ -332,6 +336,10 @@ fn app_thread(server: std::sync::Arc<Server>, script: Vec<Action>, tx: mpsc::Sen
             // an upgrade request's body is the rest of the connection: it can be read through
             // as_reader() before upgrading, or through the stream `upgrade()` returns — same bytes
             let via_stream = matches!(a.fin, Finish::Upgrade(..)) && a.as_reader == 1 && a.buf % 2 == 0 && !a.zero_read;
+            if a.delay_ms >= PRE_DELAY {
+                // a busy application: it asks for the body only a while after it got the request
+                std::thread::sleep(Duration::from_millis(a.delay_ms - PRE_DELAY));
+            }
             for _ in 1..a.as_reader {
                 let _ = rq.as_reader();
             }
@@ -364,7 +372,7 @@ fn app_thread(server: std::sync::Arc<Server>, script: Vec<Action>, tx: mpsc::Sen
             if !via_stream {
                 let _ = tx2.send(Ev::ReadEnd(end));
             }
-            if a.delay_ms > 0 {
+            if a.delay_ms > 0 && a.delay_ms < PRE_DELAY {
                 std::thread::sleep(Duration::from_millis(a.delay_ms));
             }
             match &a.fin {
@@ -646,8 +654,10 @@ pub fn run_case(id: u64, c: &ConnCase, tmpdir: &str, tm: &Timing) -> String {
         pos = cut;
         if Some(cut) == c.hold {
             // wait until the server said something (100 Continue or a final response), at most 1 s
+            // (longer when the application is known to take its time before asking for the body)
             let t0 = Instant::now();
-            while wire.is_empty() && !eof && t0.elapsed() < Duration::from_millis(1000) {
+            let pre = c.script.first().map_or(0, |a| if a.delay_ms >= PRE_DELAY { a.delay_ms - PRE_DELAY } else { 0 });
+            while wire.is_empty() && !eof && t0.elapsed() < Duration::from_millis(1000 + pre * 2) {
                 pump(&mut wire, &mut eof, Duration::from_millis(20));
             }
             // let the rest of that burst arrive, then remember what the client had at this point
